@@ -7,6 +7,8 @@ read_signal(..., force_as="sph") from a path and from a stream.  Enumerated comp
                 16384-byte read boundaries (frame sizes 1..7, 2..14 bytes; files of 1..5 reads) x
                 header (field layouts; sizes on, next to and between multiples of 1024) x requested
                 dtype x access path
+  wide_frames   channel counts at which ONE frame is as large as / larger than the 16384-byte read
+                (4096 .. 32769 channels, every coding, a few samples), complete and truncated
   header_sizes  field layout x EVERY header size 1024..3100 (thorough ..5200) and sizes around
                 4096, 5120, 8192, 16384 ... x coding x channels x access path on 1300-sample files
   g711_tables   all 256 codes of both tables (independent ITU-T expansion, mc/refs/g711.py)
@@ -280,6 +282,101 @@ def _lattice(pt, seed):
                        obs=sorted(map(str, obs)),
                        sample=dict(coding=coding, channels=ch, count=count, reads=reads,
                                    inner="x %d headers x 5 dtypes x {stream,path}" % len(sph.HEADER_VARIANTS)))
+
+
+# ------------------------------------------------------------------ frames as large as / larger than a read
+
+
+# "any channel count": ONE frame (channels x bytes per sample) may be as large as, or larger than, the
+# reader's 16384-byte read.  Channel counts that put the frame size on and next to READ/2, READ, 2*READ,
+# 3*READ and 4*READ for the 1-byte and the 2-byte codings alike (frame bytes = channels resp. 2*channels)
+WIDE_CHANNELS = (4096, 4097, 8191, 8192, 8193, 16383, 16384, 16385, 24577, 32768, 32769)
+WIDE_COUNTS = (1, 2, 3, 5)
+WIDE_HEADERS = ("h1024", "h1500", "extra2048")
+
+
+def _frame_vs_read(fs):
+    return "below" if fs < READ else "equal" if fs == READ else "above"
+
+
+def _wide_cuts(fs, count):
+    """data-section lengths (bytes) of truncated wide-frame files: nothing, less than one read, less
+    than one frame, one frame +-1, and one byte short of the whole file"""
+    out = {0, 1, READ - 1, READ, READ + 1, fs - 1, fs, fs + 1, (count - 1) * fs, (count - 1) * fs + fs // 2,
+           count * fs - 1}
+    return sorted(x for x in out if 0 <= x < count * fs)
+
+
+def _wide_case(case, seed, tmpdir, cache=None):
+    """one complete (data_bytes None) or truncated wide-frame file"""
+    coding, ch, variant = case["coding"], case["channels"], case["header"]
+    count, dtype, access, nbytes = case["count"], case["dtype"], case["access"], case["data_bytes"]
+    cache = {} if cache is None else cache
+    key = (coding, ch, count)
+    if key not in cache:
+        stored = _stored(coding, ch, count, seed)
+        cache[key] = (stored, sph.encode_samples(coding, stored))
+    stored, body = cache[key]
+    fs = ch * sph.bytes_per_sample(coding)
+    if nbytes is None:
+        present = count
+    else:
+        if not 0 <= nbytes < count * fs:
+            raise core.HarnessError("not a truncation: %r" % (case,))
+        present = nbytes // fs
+        body = body[:nbytes]
+    if (key, present, dtype) not in cache:
+        cache[(key, present, dtype)] = _expected(coding, stored[:present], dtype)
+    want = cache[(key, present, dtype)]
+    if want is None:
+        return [], "skipped"
+    head = sph.header_variant(variant, coding, ch, count)
+    r = _read(head + body, access, dtype, tmpdir)
+    tags = dict(coding=coding, sub="wide_frames", frame_vs_read=_frame_vs_read(fs),
+                truncated=(nbytes is not None), **_hdr_tags(len(head)))
+    case = dict(case, kind="wide_frames")
+    where = "%s %d channels (one frame = %d bytes = %.4f reads of 16384) x %d samples, header=%s, %s, " \
+        "dtype=%s, %s" % (coding, ch, fs, fs / float(READ), count, variant,
+                          "complete" if nbytes is None else "data section cut to %d of %d bytes (%d whole "
+                          "samples)" % (nbytes, count * fs, present), dtype, access)
+    if r[0] == "exc":
+        return [core.violation(dict(tags, what="exception", exc=type(r[1]).__name__),
+                               "%s: raised %s: %s" % (where, type(r[1]).__name__, _clean(r[1])), case)], "exc"
+    viol = []
+    if nbytes is not None and not r[2]:
+        viol.append(core.violation(dict(tags, what="truncated_no_warning"), "%s: no warning issued" % where, case))
+    c = _compare(r[1], want, coding, ch, tags)
+    if c is not None:
+        what = c[0]
+        if what == "partial_frame_lost":         # that class is about frames SMALLER than a read
+            what = "shape" if r[1].shape != want.shape else "samples"
+        viol.append(core.violation(dict(tags, what=what), "%s: %s%s" % (
+            where, c[1], "; warnings %r" % r[2] if r[2] else ""), case))
+    return viol, ("ok" if not viol else "viol")
+
+
+def _wide(pt, seed):
+    coding, ch, count = pt
+    fs = ch * sph.bytes_per_sample(coding)
+    viol, obs, evals, nontriv, skipped = [], set(), 0, 0, 0
+    cache = {}
+    with _Tmp() as tmp:
+        for nbytes in [None] + _wide_cuts(fs, count):
+            for variant in (WIDE_HEADERS if nbytes is None else WIDE_HEADERS[:1]):
+                for dtype in (DTYPES if nbytes is None else (None, "uint8")):
+                    for access in ACCESS:
+                        v, o = _wide_case(dict(coding=coding, channels=ch, header=variant, count=count,
+                                               dtype=dtype, access=access, data_bytes=nbytes), seed, tmp, cache)
+                        if o == "skipped":
+                            skipped += 1
+                            continue
+                        evals += 1
+                        nontriv += int(fs >= READ)
+                        obs.add((o, _frame_vs_read(fs), nbytes is None, dtype))
+                        viol += v
+    return core.result(viol, evals=evals, nontrivial_count=nontriv, skipped=skipped, obs=sorted(map(str, obs)),
+                       sample=dict(coding=coding, channels=ch, count=count, frame_bytes=fs,
+                                   cuts=_wide_cuts(fs, count), headers=list(WIDE_HEADERS)))
 
 
 # ------------------------------------------------------------------ every header size
@@ -790,6 +887,8 @@ def _replay(case, seed):
         if k == "lattice":
             v, _ = _lattice_case(c, seed, tmp)
             return core.result([v] if v is not None else [])
+        if k == "wide_frames":
+            return core.result(_wide_case(c, seed, tmp)[0])
         if k == "header_sizes":
             v, _ = _hs_case(c, seed, tmp)
             return core.result([v] if v is not None else [])
@@ -842,6 +941,7 @@ def subchecks(tier, seed):
             count = 3 * (READ // fs) + 3
             tr.append((c, ch, "h1024", count, _boundary_lengths(fs, count, 3)))
     hist = [(alph, depth, i) for alph, depth in HIST_PLAN[tier] for i in range(len(_hist_calls(alph)))]
+    wide = [(c, ch, n) for c in sph.CODINGS for ch in WIDE_CHANNELS for n in WIDE_COUNTS]
     return [
         # first in the list: its children must start from the state "just imported" also when
         # every sub-check runs in one process (VERIF_NPROC=1)
@@ -874,6 +974,22 @@ def subchecks(tier, seed):
                 count_axis, ",".join(sph.HEADER_VARIANTS), _kmax() + 1),
             axes=dict(coding=list(sph.CODINGS), channels=chans, count=count_axis,
                       header=list(sph.HEADER_VARIANTS), dtype=list(DTYPES), access=list(ACCESS)),
+            replay=lambda case: _replay(case, seed)),
+        core.SubCheck(
+            "wide_frames", wide, lambda p: _wide(p, seed),
+            "files in which ONE frame is as large as or larger than the reader's 16384-byte read: per point "
+            "(coding, channels in %r, i.e. frames of 0.25 .. 4 reads on and next to READ/2, READ, 2*READ, "
+            "3*READ, 4*READ bytes, sample count in %r) the inner loop is {complete file: header %r x requested dtype "
+            "{None,int16,uint8,int8,float32} x {stream,path}; data section cut to 0, 1, 16383..16385, one "
+            "frame -1/+0/+1, all but the last frame, the last frame halved, the whole file less one byte: "
+            "dtype {None,uint8} x {stream,path}} (PCM with a 1-byte dtype is outside the property: skipped): "
+            "exact values, shape (n, channels) and dtype; truncated => a warning and exactly the whole samples "
+            "present; non-trivial = frame >= 16384 bytes" % (list(WIDE_CHANNELS), list(WIDE_COUNTS),
+                                                             list(WIDE_HEADERS)),
+            axes=dict(coding=list(sph.CODINGS), channels=list(WIDE_CHANNELS), count=list(WIDE_COUNTS),
+                      header=list(WIDE_HEADERS), dtype=list(DTYPES), access=list(ACCESS),
+                      data_bytes="complete / 0, 1, 16383..16385, frame-1..frame+1, (n-1) frames, (n-1)+1/2 "
+                                 "frames, all-1"),
             replay=lambda case: _replay(case, seed)),
         core.SubCheck(
             "header_sizes", hs, lambda p: _hs(p, seed),
